@@ -279,6 +279,38 @@ def _side_effect_free(e: ast.AST) -> bool:
     return True
 
 
+def _pure_names(e) -> bool:
+    return isinstance(e, (ast.Name, ast.Constant)) or (isinstance(e, ast.Tuple) and all(_pure_names(x) for x in e.elts))
+
+
+def _try_returns_to_tail(body: List[ast.stmt]) -> List[ast.stmt]:
+    """[..., try: pre; if c: return X; post  except ...: raise, return Y]   (X, Y plain names / tuples of names)
+    ->  [..., try: pre; if c: _r = X else: post; _r = Y   except ...: raise, return _r]
+    so that the helper has its only return in tail position and can be inlined.  The handlers must not return."""
+    if len(body) < 2 or not isinstance(body[-1], ast.Return) or body[-1].value is None or not _pure_names(body[-1].value) or not isinstance(body[-2], ast.Try):
+        return body
+    tr = body[-2]
+    if tr.orelse or tr.finalbody:
+        return body
+    for h in tr.handlers:
+        if any(isinstance(n, ast.Return) for x in h.body for n in _walk_no_nested(x)):
+            return body
+    idx = [i for i, st in enumerate(tr.body) if isinstance(st, ast.If) and not st.orelse and len(st.body) == 1 and isinstance(st.body[0], ast.Return)
+           and st.body[0].value is not None and _pure_names(st.body[0].value)]
+    rets_in_try = [n for x in tr.body for n in _walk_no_nested(x) if isinstance(n, ast.Return)]
+    if len(idx) != 1 or len(rets_in_try) != 1:
+        return body
+    i = idx[0]
+    iff = tr.body[i]
+    rname = "_tryret"
+    def asg(v, at):
+        return ast.copy_location(ast.Assign(targets=[ast.Name(id=rname, ctx=ast.Store())], value=v, lineno=getattr(at, "lineno", 0)), at)
+    new_if = ast.copy_location(ast.If(test=iff.test, body=[asg(iff.body[0].value, iff)], orelse=list(tr.body[i + 1:]) + [asg(body[-1].value, body[-1])]), iff)
+    new_try = ast.copy_location(ast.Try(body=list(tr.body[:i]) + [new_if], handlers=tr.handlers, orelse=[], finalbody=[]), tr)
+    new_ret = ast.copy_location(ast.Return(value=ast.Name(id=rname, ctx=ast.Load())), body[-1])
+    return list(body[:-2]) + [new_try, new_ret]
+
+
 def _ends_with_return(stmts: Sequence[ast.stmt]) -> bool:
     if not stmts:
         return False
@@ -381,6 +413,19 @@ class Canonicalizer:
                 if not self._lift_conditionals(new):
                     break
                 set_parents(new, owner)
+            for _ in range(6):
+                if not self._unroll_maps(new):
+                    break
+                set_parents(new, owner)
+            # desugaring exposes helper calls that sat inside comprehensions / conditional values: inline once more
+            for _ in range(40):
+                if not (self._hoist_round(mod, new, fn) or self._inline_round(mod, new, fn)):
+                    break
+                set_parents(new, owner)
+            for _ in range(20):
+                if not self._lift_conditionals(new):
+                    break
+                set_parents(new, owner)
             for _ in range(60):
                 if not self._copy_propagate(new):
                     break
@@ -423,6 +468,9 @@ class Canonicalizer:
             if isinstance(f, ast.Attribute):
                 # self.helper(...) on a staticmethod: no self binding
                 pass
+        if id(h) in self._active:
+            # an ancestor of the function being canonicalised (mutual recursion): never inline it into its own callee
+            return None
         if id(h) not in self._active:
             self._active.add(id(h))
             try:
@@ -435,7 +483,7 @@ class Canonicalizer:
             hc = h
         raw_h = h
         h = hc
-        body = _docless(h.body)
+        body = _try_returns_to_tail(_docless(h.body))
         n_stmts = sum(1 for _ in _walk_no_nested(h) if isinstance(_, ast.stmt))
         if n_stmts > self.max_helper_stmts:
             return None
@@ -457,14 +505,19 @@ class Canonicalizer:
             if top is None:
                 continue
             for call in [n for n in ast.walk(top) if isinstance(n, ast.Call)]:
-                if call is top and isinstance(st, (ast.Expr, ast.Assign)):
+                if call is top and isinstance(st, ast.Expr):
+                    continue
+                if call is top and isinstance(st, ast.Assign) and len(st.targets) == 1 and isinstance(st.targets[0], (ast.Name, ast.Tuple)):
                     continue
                 if call is top and isinstance(st, ast.Return) and st is new.body[-1]:
                     continue
                 # not under short-circuit / conditional / lambda / comprehension
                 p, ok = getattr(call, "_parent", None), True
                 while p is not None and p is not st:
-                    if isinstance(p, (ast.BoolOp, ast.IfExp, ast.Lambda, ast.ListComp, ast.SetComp, ast.DictComp, ast.GeneratorExp, ast.Yield, ast.YieldFrom)):
+                    if isinstance(p, (ast.BoolOp, ast.IfExp, ast.Lambda, ast.ListComp, ast.SetComp, ast.DictComp, ast.GeneratorExp)):
+                        ok = False
+                        break
+                    if isinstance(p, (ast.Yield, ast.YieldFrom)) and (p is not top or call is p.value):
                         ok = False
                         break
                     p = getattr(p, "_parent", None)
@@ -533,6 +586,12 @@ class Canonicalizer:
                 call, target = st.value, st.targets[0]
             elif isinstance(st, ast.AnnAssign) and isinstance(st.value, ast.Call) and isinstance(st.target, ast.Name):
                 call, target = st.value, st.target
+            materialise = None
+            if isinstance(st, ast.Assign) and len(st.targets) == 1 and isinstance(st.targets[0], ast.Name) and isinstance(st.value, ast.Call) \
+                    and isinstance(st.value.func, ast.Name) and st.value.func.id == "list" and len(st.value.args) == 1 and not st.value.keywords \
+                    and isinstance(st.value.args[0], ast.Call):
+                # X = list(generator_helper(...)): the helper's yields become appends to X
+                call, target, gen, materialise = st.value.args[0], None, True, st.targets[0].id
             elif isinstance(st, ast.Return) and isinstance(st.value, ast.Call) and st is new.body[-1]:
                 call = st.value
                 target = "RETURN"
@@ -612,6 +671,31 @@ class Canonicalizer:
                                                         and isinstance(x.value, ast.Name) and x.value.id == x.targets[0].id)]
                 new_body = [x for x in new_body if not (isinstance(x, ast.Assign) and len(x.targets) == 1 and isinstance(x.targets[0], ast.Tuple) and isinstance(x.value, ast.Tuple)
                                                         and [getattr(e, "id", 0) for e in x.targets[0].elts] == [getattr(e, "id", 1) for e in x.value.elts])]
+            if materialise is not None:
+                if any(isinstance(n, ast.Name) and n.id == materialise for x in new_body for n in ast.walk(x)):
+                    continue
+
+                class _Y(ast.NodeTransformer):
+                    def visit_Expr(self, node):
+                        if isinstance(node.value, ast.Yield):
+                            v = node.value.value if node.value.value is not None else ast.Constant(value=None)
+                            return ast.copy_location(ast.Expr(value=ast.Call(func=ast.Attribute(value=ast.Name(id=materialise, ctx=ast.Load()), attr="append", ctx=ast.Load()),
+                                                                            args=[v], keywords=[])), node)
+                        if isinstance(node.value, ast.YieldFrom):
+                            return ast.copy_location(ast.Expr(value=ast.Call(func=ast.Attribute(value=ast.Name(id=materialise, ctx=ast.Load()), attr="extend", ctx=ast.Load()),
+                                                                            args=[node.value.value], keywords=[])), node)
+                        return node
+
+                    def visit_FunctionDef(self, node):
+                        return node
+
+                    def visit_Lambda(self, node):
+                        return node
+                new_body = [_Y().visit(x) for x in new_body]
+                if any(isinstance(n, (ast.Yield, ast.YieldFrom)) for x in new_body for n in ast.walk(x)):
+                    continue   # a yield used as an expression: not a plain producer
+                init = ast.copy_location(ast.Assign(targets=[ast.Name(id=materialise, ctx=ast.Store())], value=ast.List(elts=[], ctx=ast.Load()), lineno=st.lineno), st)
+                new_body = [init] + new_body
             if not new_body:
                 new_body = [ast.copy_location(ast.Pass(), st)]
             self._replace_stmt(new, st, new_body)
@@ -642,6 +726,68 @@ class Canonicalizer:
                         if x is old:
                             val[i:i + 1] = new_list
                             return
+
+    # ------------------------------------------------------------------ acc = []; for t in [a, b, c]: acc.append(f(t)); x, y, z = acc  ->  x = f(a); y = f(b); z = f(c)
+    def _unroll_maps(self, new: ast.FunctionDef) -> bool:
+        for blk in [n for n in ast.walk(new) if isinstance(getattr(n, "body", None), list)]:
+            for field in ("body", "orelse", "finalbody"):
+                stmts = getattr(blk, field, None)
+                if not isinstance(stmts, list):
+                    continue
+                for i in range(len(stmts) - 2):
+                    a, lp, u = stmts[i], stmts[i + 1], stmts[i + 2]
+                    pre = []
+                    # optional `trees = [a, b, c]` just before the accumulator
+                    if isinstance(a, ast.Assign) and isinstance(lp, ast.Assign) and i + 3 < len(stmts):
+                        pre, a, lp, u = [a], stmts[i + 1], stmts[i + 2], stmts[i + 3]
+                    if not (isinstance(a, ast.Assign) and len(a.targets) == 1 and isinstance(a.targets[0], ast.Name) and isinstance(a.value, ast.List) and not a.value.elts):
+                        continue
+                    acc = a.targets[0].id
+                    if not (isinstance(lp, ast.For) and isinstance(lp.target, ast.Name) and not lp.orelse and len(lp.body) == 1):
+                        continue
+                    it = lp.iter
+                    if pre and isinstance(it, ast.Name) and isinstance(pre[0].targets[0], ast.Name) and pre[0].targets[0].id == it.id:
+                        it = pre[0].value
+                    elif pre:
+                        continue
+                    if not (isinstance(it, (ast.List, ast.Tuple)) and 1 <= len(it.elts) <= 8 and all(_simple(e) for e in it.elts)):
+                        continue
+                    b = lp.body[0]
+                    if not (isinstance(b, ast.Expr) and isinstance(b.value, ast.Call) and isinstance(b.value.func, ast.Attribute) and b.value.func.attr == "append"
+                            and isinstance(b.value.func.value, ast.Name) and b.value.func.value.id == acc and len(b.value.args) == 1):
+                        continue
+                    if not (isinstance(u, ast.Assign) and len(u.targets) == 1 and isinstance(u.targets[0], (ast.Tuple, ast.List)) and isinstance(u.value, ast.Name) and u.value.id == acc
+                            and len(u.targets[0].elts) == len(it.elts) and all(isinstance(e, ast.Name) for e in u.targets[0].elts)):
+                        continue
+                    tnames = [e.id for e in u.targets[0].elts]
+                    # later elements must not read earlier targets (their value at list-construction time is what counts)
+                    clash = False
+                    for j, e in enumerate(it.elts):
+                        used = {n.id for n in ast.walk(e) if isinstance(n, ast.Name)}
+                        if used & set(tnames[:j]):
+                            clash = True
+                    body_names = {n.id for n in ast.walk(b.value.args[0]) if isinstance(n, ast.Name)} - {lp.target.id}
+                    if clash or (body_names & set(tnames)):
+                        continue
+                    # the accumulator and the element list are not used elsewhere
+                    others = [n for n in _walk_no_nested(new) if isinstance(n, ast.Name) and n.id == acc and not any(n is y for s_ in ([a, lp, u]) for y in ast.walk(s_))]
+                    if others:
+                        continue
+                    seq = []
+                    for t_, e in zip(tnames, it.elts):
+                        val = _Subst({lp.target.id: e}).visit(clone(b.value.args[0]))
+                        seq.append(ast.copy_location(ast.Assign(targets=[ast.Name(id=t_, ctx=ast.Store())], value=val, lineno=u.lineno), u))
+                    lo = i
+                    hi = i + (4 if pre else 3)
+                    keep_pre = []
+                    if pre:
+                        pn = pre[0].targets[0].id
+                        if any(isinstance(n, ast.Name) and n.id == pn and not any(n is y for s_ in (pre[0], lp) for y in ast.walk(s_)) for n in _walk_no_nested(new)):
+                            keep_pre = pre
+                    stmts[lo:hi] = keep_pre + seq
+                    self.notes.append(f"unrolled a map over {len(seq)} elements in {new.name}")
+                    return True
+        return False
 
     # ------------------------------------------------------------------ conditional values / EAFP lookups -> if statements
     def _lift_conditionals(self, new: ast.FunctionDef) -> bool:
@@ -958,3 +1104,51 @@ class Canonicalizer:
                 return False
             p = getattr(p, "_parent", None)
         return False
+
+
+def unroll_literal_loops(fn: ast.FunctionDef, max_items: int = 6) -> ast.FunctionDef:
+    """a copy of `fn` in which every `for <targets> in (<literal>, <literal>, ...)` over a short tuple/list of constants (or of tuples of constants)
+    is replaced by its iterations in sequence, the targets substituted — a table-driven loop and its spelled-out form read the same.
+    Loops containing break/continue are left alone.  Used on demand by rules whose clause is about the sequence of iterations."""
+    new = clone(fn)
+
+    def const(e):
+        return isinstance(e, ast.Constant) or (isinstance(e, (ast.Tuple, ast.List)) and all(const(x) for x in e.elts)) or \
+            (isinstance(e, ast.Attribute) and isinstance(e.value, ast.Name) and e.value.id == "Op")
+
+    def bind(t, v, out):
+        if isinstance(t, ast.Name):
+            out[t.id] = v
+            return True
+        if isinstance(t, (ast.Tuple, ast.List)) and isinstance(v, (ast.Tuple, ast.List)) and len(t.elts) == len(v.elts):
+            return all(bind(a, b, out) for a, b in zip(t.elts, v.elts))
+        return False
+    changed = True
+    rounds = 0
+    while changed and rounds < 10:
+        changed = False
+        rounds += 1
+        for st in [n for n in _walk_no_nested(new) if isinstance(n, ast.For)]:
+            it = st.iter
+            if not isinstance(it, (ast.Tuple, ast.List)) or not it.elts or len(it.elts) > max_items or not all(const(e) for e in it.elts) or st.orelse:
+                continue
+            if any(isinstance(n, (ast.Break, ast.Continue)) for n in _walk_no_nested(st) if n is not st):
+                continue
+            seq = []
+            ok = True
+            for e in it.elts:
+                m = {}
+                if not bind(st.target, e, m):
+                    ok = False
+                    break
+                for b in st.body:
+                    seq.append(_Subst(m).visit(clone(b)))
+            if not ok:
+                continue
+            Canonicalizer._replace_stmt(new, st, seq)
+            changed = True
+            break
+    set_parents(new, getattr(fn, "_parent", None))
+    ast.fix_missing_locations(new)
+    number_nodes(new)
+    return new
